@@ -64,6 +64,12 @@ def sweep_cases(ctx: core.Ctx, rnd: random.Random, gens: list, repeats: int, *, 
         for fname, sname in (("sample.py", "python"), ("sample.bat", "bat"), ("sample.c", "c"), ("sample.html", "html")):
             for kind in ("code", "comment", "empty"):
                 add(fname, sname, kind, by_name["B3"], {"template": "nocon"}, "nothing-rendered:" + fname, must=False)
+    # a contributor with a character that ends a line for str.splitlines() only (U+2028, form feed): the tool may refuse it -
+    # but a header that the next run takes apart must not be written
+    for fname, sname in (("sample.py", "python"), ("sample.c", "c")):
+        for brk in ("\u2028", "\x0c", "\x85"):
+            add(fname, sname, "code", by_name["B9"], {}, "line-separator-in-contributor:" + fname, must=False)
+            cases[-1]["steps"] = [dict(st_, req=dict(st_["req"], con=["Ann" + brk + "Lee"])) for st_ in cases[-1]["steps"]]
     # files longer than the 4 KiB window, in each line-ending convention (add() cycles LF, CRLF, CR)
     for fname, sname in (("sample.py", "python"), ("sample.c", "c"), ("sample.html", "html")):
         for _ in range(3):
